@@ -88,9 +88,10 @@ ExprTrees ==
     \cup {Wrap(Base(<<CDefine(<<Item(FALSE, "v", e), Item(TRUE, "gv", P("v"))>>), CContent(Alt(<<P("v"), P("s")>>), FALSE)>>))
            \o <<El("i", <<>>, <<CContent(Alt(<<P("v"), P("gv"), S(<<Lit("none")>>)>>), FALSE)>>, <<>>)>> : e \in ExprSet}
     \cup {Wrap(Base(<<CRepeat("x", e), CContent(Alt(<<P("x"), S(<<Lit("-")>>)>>), FALSE)>>)) : e \in ExprSet \cup {P("holes"), P("one"), P("recs"), P("rows"), P("eit")}}
-    \cup {Wrap(Base(<<CRepeat("x", r), CContent(e, FALSE)>>)) : e \in RepeatVarSet, r \in {P("lst"), P("one"), P("s")}}
-    \* (the `length` of an iterator repeat is sys.maxsize: outside E.4 and outside TLC's integers)
-    \cup {Wrap(Base(<<CRepeat("x", P("it")), CContent(e, FALSE)>>)) : e \in RepeatVarSet \ {P("repeat/x/length")}}
+    \* (the `length` of an iterator repeat is sys.maxsize: outside E.4 and outside TLC's integers; `length` is asked only of
+    \* sources that are sequences or strings in every context)
+    \cup {Wrap(Base(<<CRepeat("x", r), CContent(e, FALSE)>>)) : e \in RepeatVarSet \ {P("repeat/x/length")}, r \in {P("lst"), P("one"), P("s"), P("it")}}
+    \cup {Wrap(Base(<<CRepeat("x", r), CContent(P("repeat/x/length"), FALSE)>>)) : r \in {P("one"), P("holes"), P("s")}}
     \cup {Wrap(Base(<<CRepeat("x", P("recs")), CContent(e, FALSE)>>)) :
               e \in {Alt(<<P("x/label"), P("default")>>), Alt(<<P("x/label"), S(<<Lit("item "), Sub(P("repeat/x/number"))>>)>>),
                      Alt(<<P("x/label"), P("nothing")>>), P("x/label")}}
